@@ -109,7 +109,7 @@ func caseC14(r *rand.Rand, cw *CalcWriter, label string, maxT int) {
 			Args: map[string]interface{}{"metric": metricNames[metric]}}
 		ev.guard(calcTimeout, func() error {
 			m, tips := t.ToDistanceMatrix(metric)
-			ev.Res = matrixRes(m, tips, toUnits)
+			ev.Res = matrixRes(m, tips, toUnitsSigned)
 			return nil
 		})
 		cw.emit(ev)
@@ -765,7 +765,7 @@ func replayCalcCase(cw *CalcWriter, c *calcCase, label string, k int) {
 			metric := metric
 			ev.guard(calcTimeout, func() error {
 				m, tips := t.ToDistanceMatrix(metric)
-				ev.Res = matrixRes(m, tips, toUnits)
+				ev.Res = matrixRes(m, tips, toUnitsSigned)
 				return nil
 			})
 			cw.emit(ev)
